@@ -12,8 +12,11 @@
      `assert all(X_rs > 0)`, `assert all(C_rs > 0)` (None = AssertionError), k sweeps, and the final
      normalisation T = X / X.sum(-1), pi = X_rs / X_rs.sum();
    - the certificate checker used on the implementation's returned (T, pi).
-   Not modelled: the pseudo log-likelihood `logl` and the convergence test on it (the number of
-   sweeps is a parameter), IEEE rounding. *)
+   Round 1 modelled the number of sweeps as a parameter (`prinz_run`).  Round 2 adds the stopping rule
+   (end of this file): the pseudo log-likelihood `logl` accumulated inside each sweep from the values
+   just written, the test `abs(logl - oldlogl) > tol` (both translated from the source into
+   Gen/PrinzGen.v over `Ops` + `LOps`), the iteration cap `range(max_iter)` and the warning condition
+   `n_iter == max_iter - 1` (`prinz_loop`, `prinz_run_stop`).  Not modelled: IEEE rounding. *)
 From Coq Require Import List ZArith QArith Qabs Qreduction Bool Arith.
 Import ListNotations.
 
@@ -157,4 +160,107 @@ Definition result_near (tol : Q) (m e : option (list (list Q) * list Q)) : bool 
   | None, None => true
   | Some (T, pi), Some (T', pi') => all2l (all2l (q_near tol)) T T' && all2l (q_near tol) pi pi'
   | _, _ => false
+  end.
+
+(* ====================================================================== the stopping rule (round 2)
+   Extra operations used only by the pseudo log-likelihood and the convergence test. *)
+Record LOps (K : Type) := mkLOps {
+  klog : K -> K;        (* np.log *)
+  klog10 : K -> K;      (* C's log10 *)
+  kabs : K -> K }.
+Arguments klog {K} _ _. Arguments klog10 {K} _ _. Arguments kabs {K} _ _.
+
+Section Loop.
+  Context {K : Type}.
+  Variable o : Ops K.
+  Variable dg : K -> K -> K -> K -> K * K.
+  Variable od : K -> K -> K -> K -> K -> K -> K -> K -> K * K * K * K.
+  (* the translated `logl +=` terms, evaluated on the values just stored:
+     dgl C_ii Crs_i Xrs_i X_ii;  odl C_ij C_ji Crs_i Crs_j Xrs_i Xrs_j X_ij X_ji *)
+  Variable dgl : K -> K -> K -> K -> K.
+  Variable odl : K -> K -> K -> K -> K -> K -> K -> K -> K.
+  (* the translated test `abs(logl - oldlogl) > tol` :  cont tol logl oldlogl *)
+  Variable cont : K -> K -> K -> bool.
+  Variable C : nat -> nat -> K.
+  Variable Crs : nat -> K.
+
+  Definition diag_step_l (sl : state K * K) (i : nat) : state K * K :=
+    let s' := diag_step dg C Crs (fst sl) i in
+    (s', kadd o (snd sl) (dgl (C i i) (Crs i) (snd s' i) (fst s' i i))).
+
+  Definition off_step_l (sl : state K * K) (ij : nat * nat) : state K * K :=
+    let s' := off_step od C Crs (fst sl) ij in
+    let i := fst ij in let j := snd ij in
+    (s', kadd o (snd sl) (odl (C i j) (C j i) (Crs i) (Crs j) (snd s' i) (snd s' j) (fst s' i j) (fst s' j i))).
+
+  (* one pass of the body of `for n_iter in range(max_iter)`: `logl = 0`, the two loops *)
+  Definition sweep_l (n : nat) (s : state K) : state K * K :=
+    fold_left off_step_l (pairs n) (fold_left diag_step_l (seq 0 n) (s, kofZ o 0)).
+
+  (* `for n_iter in range(max_iter): <sweep>; if abs(logl - oldlogl) > tol: oldlogl = logl else: break`.
+     fuel = iterations still allowed, done = sweeps executed so far.
+     Result: (state, sweeps executed, left by `break`). *)
+  Fixpoint prinz_loop (n : nat) (tol : K) (fuel done : nat) (s : state K) (oldlogl : K) : state K * nat * bool :=
+    match fuel with
+    | O => (s, done, false)
+    | S f => let sl := sweep_l n s in
+             if cont tol (snd sl) oldlogl then prinz_loop n tol f (S done) (fst sl) (snd sl)
+             else (fst sl, S done, true)
+    end.
+End Loop.
+
+(* the whole function for max_iter >= 1 (`oldlogl = 0` initially).  After the loop the Python variable
+   n_iter is (sweeps executed - 1), so `if n_iter == max_iter - 1: warnings.warn(..)` fires exactly when
+   the number of executed sweeps equals max_iter -- also when the `break` happened in that last pass.
+   Result: None = a guard failed; Some ((T, pi), sweeps, warned). *)
+Definition prinz_run_stop {K} (o : Ops K) dg od dgl odl cont
+    (n : nat) (C : nat -> nat -> K) (tol : K) (max_iter : nat)
+    : option ((list (list K) * list K) * nat * bool) :=
+  let s0 := init_state o n C in
+  let Crs := fun i => sumK o n (C i) in
+  if all_pos o n (snd s0) && all_pos o n Crs then
+    let '(s, k, _) := prinz_loop o dg od dgl odl cont C Crs n tol max_iter 0 s0 (kofZ o 0) in
+    Some (normalise o n s, k, Nat.eqb k max_iter)
+  else None.
+
+(* ---- executable logarithm on Q: ln x to within about 2^-p (fixed point with 16 guard bits).
+        x = m * 2^e with 1/2 <= m <= 2;  ln m = 2 atanh((m-1)/(m+1)), |argument| <= 1/3;  ln 2 = 2 atanh(1/3) *)
+Fixpoint atanh_fix (S z2 : Z) (pw : Z) (k : nat) (d : Z) (acc : Z) : Z :=
+  match k with
+  | O => acc
+  | S k' => atanh_fix S z2 ((pw * z2) / S) k' (d + 2) (acc + pw / d)
+  end.
+Definition atanh_q (p : positive) (z : Q) : Z :=      (* S * atanh z, |z| <= 1/3 *)
+  let S := (2 ^ (Zpos p + 16))%Z in
+  let zi := ((Qnum z * S) / Zpos (Qden z))%Z in
+  atanh_fix S ((zi * zi) / S)%Z zi (Pos.to_nat p / 3 + 8) 1%Z 0%Z.
+Definition qlog (p : positive) (x : Q) : Q :=
+  if Qle_bool x 0 then 0
+  else
+    let e := (Z.log2 (Qnum x) - Z.log2 (Zpos (Qden x)))%Z in
+    let m := if (0 <=? e)%Z then x / inject_Z (2 ^ e) else x * inject_Z (2 ^ (- e)) in
+    let S := (2 ^ (Zpos p + 16))%Z in
+    let lm := (2 * atanh_q p ((m - 1) / (m + 1)))%Z in
+    let l2 := (2 * atanh_q p (1 # 3))%Z in
+    qround p (Qred ((lm + e * l2) # 1) / inject_Z S).
+
+Definition QLOps (p : positive) : LOps Q :=
+  let l10 := qlog p 10 in
+  mkLOps Q (qlog p) (fun x => qround p (qlog p x / l10)) (fun x => Qred (Qabs x)).
+
+(* ---- comparison of the model's stopping point with the implementation's sweep count N (obtained by
+        probing max_iter: the warning appears iff at least max_iter sweeps were executed).  Exact
+        agreement, or -- when |logl - oldlogl| is within rounding of tol in the doubles -- N between the
+        model's counts for tol (1 +- 1/1000). *)
+Definition stop_count {A} (r : option (A * nat * bool)) : option (nat * bool) :=
+  match r with Some (_, k, w) => Some (k, w) | None => None end.
+Definition stop_agrees {A} (run : Q -> nat -> option (A * nat * bool)) (tol : Q) (N : nat) : bool :=
+  match stop_count (run tol (S N)) with
+  | Some (k, w) =>
+      if Nat.eqb k N && negb w then true
+      else match stop_count (run (tol * (1001 # 1000)) (S N)), stop_count (run (tol * (999 # 1000)) (S N)) with
+           | Some (klo, _), Some (khi, _) => Nat.leb klo N && Nat.leb N khi
+           | _, _ => false
+           end
+  | None => false
   end.
